@@ -336,6 +336,10 @@ def polyhedral_termlist_from_string(str_rep: str) -> List[PolyhedralTerm]:
         tokens: pp.ParseResults = expression.parse_string(str_rep, parse_all=True)
     except pp.ParseBaseException as pe:
         raise PolyhedralSyntaxException(pe, str_rep)
+    except ZeroDivisionError:
+        # constant arithmetic is evaluated by the parse actions: "(1/0)x <= 1" is a malformed constraint
+        pe = pp.ParseException(str_rep, 0, "division by zero in a constant expression")
+        raise PolyhedralSyntaxException(pe, str_rep)
 
     if len(tokens) == 1:
         e = tokens[0]
